@@ -139,6 +139,7 @@ func runC03(t *testing.T, planAny any, res *simnet.Result) {
 		stopRedial := make(chan struct{})
 		cutLinks := map[*simnet.Link]bool{}
 		var cutMu sync.Mutex
+		var cutTime time.Duration
 		go func() {
 			for {
 				select {
@@ -187,9 +188,10 @@ func runC03(t *testing.T, planAny any, res *simnet.Result) {
 		dataAB := simnet.NewRng(res.Seed, "ab").Bytes(p.SizeAB)
 		dataBA := simnet.NewRng(res.Seed, "ba").Bytes(p.SizeBA)
 		type side struct {
-			got []byte
-			err error
-			eof bool
+			got   []byte
+			err   error
+			eof   bool
+			endAt time.Duration // when this side's reading ended (error or end-of-stream)
 		}
 		var a, b side
 		var wg sync.WaitGroup
@@ -211,6 +213,9 @@ func runC03(t *testing.T, planAny any, res *simnet.Result) {
 					}
 					if _, err := c.Write(send[off:end]); err != nil {
 						out.err = fmt.Errorf("%s write at %d: %w", name, off, err)
+						if out.endAt == 0 {
+							out.endAt = w.Now()
+						}
 						return
 					}
 				}
@@ -227,8 +232,10 @@ func runC03(t *testing.T, planAny any, res *simnet.Result) {
 					if err != nil {
 						if err == io.EOF {
 							out.eof = true
+							out.endAt = w.Now()
 						} else if out.err == nil {
 							out.err = fmt.Errorf("%s read after %d bytes: %w", name, len(out.got), err)
+							out.endAt = w.Now()
 						}
 						return
 					}
@@ -422,6 +429,9 @@ func runC03(t *testing.T, planAny any, res *simnet.Result) {
 			go func() {
 				time.Sleep(time.Duration(p.CutAtMs) * time.Millisecond)
 				cutMu.Lock()
+				cutTime = w.Now()
+				cutMu.Unlock()
+				cutMu.Lock()
 				cutLinks[links[0]] = true
 				cutMu.Unlock()
 				links[0].Cut()
@@ -469,6 +479,11 @@ func runC03(t *testing.T, planAny any, res *simnet.Result) {
 		cutMu.Lock()
 		didCut := len(cutLinks) > 0
 		cutMu.Unlock()
+		// the known finding: the stream dies when the link goes (the writer's datagram has no next hop for the ~100 ms
+		// until the routing table is rebuilt).  The other end only notices when its idle timeout expires, and behind a
+		// bridge the reader just sees an early end-of-stream, so neither the time nor the text of the symptom narrows
+		// it further than "the run had a cut"; defects of other origin show in the runs without one.
+		_ = cutTime
 		if didCut {
 			// whatever the symptom at the two ends, a stream that does not survive the loss of a link on its path
 			// while another path exists is one finding
